@@ -401,6 +401,21 @@ func (E *Engine) resolveParam(fr *Frame, st *State, blk *ssa.BasicBlock, upto in
 	for _, q := range siblings {
 		taken[q.Name()] = true
 	}
+	// first among the variables carried around this loop (the usual case: an accumulator was renamed)
+	carried := map[string]bool{}
+	for _, phi := range headerPhis(blk) {
+		if phi.Comment != "" && !taken[phi.Comment] && types.Identical(phi.Type(), p.Type()) {
+			carried[phi.Comment] = true
+		}
+	}
+	if len(carried) == 1 {
+		for n := range carried {
+			if v := E.resolveNameAt(fr, st, blk, upto, n); v != nil {
+				E.note("ghost predicate parameter " + p.Name() + " is bound to " + n + ", the only loop-carried variable of its type in " + shortFn(fr.fn) + " (no variable of that name: renamed?)")
+				return v
+			}
+		}
+	}
 	cands := map[string]bool{}
 	for _, b := range fr.fn.Blocks {
 		for _, in := range b.Instrs {
